@@ -148,7 +148,7 @@ seq_t dtw_distance(seq_t *s1, idx_t l1,
         dtw[j] = INFINITY;
     }
     // Deal with psi-relaxation in first row
-    for (i=0; i<settings->psi_2b + 1; i++) {
+    for (i=0; i<MIN(settings->psi_2b + 1, length); i++) {
         dtw[i] = 0;
     }
     idx_t skip = 0;
@@ -269,9 +269,9 @@ seq_t dtw_distance(seq_t *s1, idx_t l1,
         // Deal with Psi-relaxation in last column
         if (settings->psi_1e != 0 && minj == l2 && l1 - 1 - i <= settings->psi_1e) {
             assert(!(settings->window == 0 || settings->window == l2) || (i1 + 1)*length - 1 == curidx);
-            if (dtw[curidx] < psi_shortest) {
-                // curidx is the last value
-                psi_shortest = dtw[curidx];
+            if (dtw[i1*length + l2 - skip] < psi_shortest) {
+                // the last value of this row (also when the last cells were skipped)
+                psi_shortest = dtw[i1*length + l2 - skip];
             }
         }
         #ifdef DTWDEBUG
@@ -285,7 +285,7 @@ seq_t dtw_distance(seq_t *s1, idx_t l1,
     // Deal with psi-relaxation in the last row
     if (settings->psi_1e != 0 || settings->psi_2e != 0) {
         if (settings->psi_2e != 0) {
-            for (i=l2 - skip - settings->psi_2e; i<l2 - skip + 1; i++) { // iterate over vci
+            for (i=MAX(0, l2 - skip - settings->psi_2e); i<l2 - skip + 1; i++) { // iterate over vci
                 if (dtw[i1*length + i] < psi_shortest) {
                     psi_shortest = dtw[i1*length + i];
                 }
@@ -386,7 +386,7 @@ seq_t dtw_distance_ndim(seq_t *s1, idx_t l1,
         dtw[j] = INFINITY;
     }
     // Deal with psi-relaxation in first row
-    for (i=0; i<settings->psi_2b + 1; i++) {
+    for (i=0; i<MIN(settings->psi_2b + 1, length); i++) {
         dtw[i] = 0;
     }
     idx_t skip = 0;
@@ -512,9 +512,9 @@ seq_t dtw_distance_ndim(seq_t *s1, idx_t l1,
         // Deal with Psi-relaxation in last column
         if (settings->psi_1e != 0 && minj == l2 && l1 - 1 - i <= settings->psi_1e) {
             assert(!(settings->window == 0 || settings->window == l2) || (i1 + 1)*length - 1 == curidx);
-            if (dtw[curidx] < psi_shortest) {
-                // curidx is the last value
-                psi_shortest = dtw[curidx];
+            if (dtw[i1*length + l2 - skip] < psi_shortest) {
+                // the last value of this row (also when the last cells were skipped)
+                psi_shortest = dtw[i1*length + l2 - skip];
             }
         }
         #ifdef DTWDEBUG
@@ -528,7 +528,7 @@ seq_t dtw_distance_ndim(seq_t *s1, idx_t l1,
     // Deal with psi-relaxation in the last row
     if (settings->psi_1e != 0 || settings->psi_2e != 0) {
         if (settings->psi_2e != 0) {
-            for (i=l2 - skip - settings->psi_2e; i<l2 - skip + 1; i++) { // iterate over vci
+            for (i=MAX(0, l2 - skip - settings->psi_2e); i<l2 - skip + 1; i++) { // iterate over vci
                 if (dtw[i1*length + i] < psi_shortest) {
                     psi_shortest = dtw[i1*length + i];
                 }
@@ -622,7 +622,7 @@ seq_t dtw_distance_euclidean(seq_t *s1, idx_t l1,
         dtw[j] = INFINITY;
     }
     // Deal with psi-relaxation in first row
-    for (i=0; i<settings->psi_2b + 1; i++) {
+    for (i=0; i<MIN(settings->psi_2b + 1, length); i++) {
         dtw[i] = 0;
     }
     idx_t skip = 0;
@@ -743,9 +743,9 @@ seq_t dtw_distance_euclidean(seq_t *s1, idx_t l1,
         // Deal with Psi-relaxation in last column
         if (settings->psi_1e != 0 && minj == l2 && l1 - 1 - i <= settings->psi_1e) {
             assert(!(settings->window == 0 || settings->window == l2) || (i1 + 1)*length - 1 == curidx);
-            if (dtw[curidx] < psi_shortest) {
-                // curidx is the last value
-                psi_shortest = dtw[curidx];
+            if (dtw[i1*length + l2 - skip] < psi_shortest) {
+                // the last value of this row (also when the last cells were skipped)
+                psi_shortest = dtw[i1*length + l2 - skip];
             }
         }
         #ifdef DTWDEBUG
@@ -759,7 +759,7 @@ seq_t dtw_distance_euclidean(seq_t *s1, idx_t l1,
     // Deal with psi-relaxation in the last row
     if (settings->psi_1e != 0 || settings->psi_2e != 0) {
         if (settings->psi_2e != 0) {
-            for (i=l2 - skip - settings->psi_2e; i<l2 - skip + 1; i++) { // iterate over vci
+            for (i=MAX(0, l2 - skip - settings->psi_2e); i<l2 - skip + 1; i++) { // iterate over vci
                 if (dtw[i1*length + i] < psi_shortest) {
                     psi_shortest = dtw[i1*length + i];
                 }
@@ -856,7 +856,7 @@ seq_t dtw_distance_ndim_euclidean(seq_t *s1, idx_t l1,
         dtw[j] = INFINITY;
     }
     // Deal with psi-relaxation in first row
-    for (i=0; i<settings->psi_2b + 1; i++) {
+    for (i=0; i<MIN(settings->psi_2b + 1, length); i++) {
         dtw[i] = 0;
     }
     idx_t skip = 0;
@@ -983,9 +983,9 @@ seq_t dtw_distance_ndim_euclidean(seq_t *s1, idx_t l1,
         // Deal with Psi-relaxation in last column
         if (settings->psi_1e != 0 && minj == l2 && l1 - 1 - i <= settings->psi_1e) {
             assert(!(settings->window == 0 || settings->window == l2) || (i1 + 1)*length - 1 == curidx);
-            if (dtw[curidx] < psi_shortest) {
-                // curidx is the last value
-                psi_shortest = dtw[curidx];
+            if (dtw[i1*length + l2 - skip] < psi_shortest) {
+                // the last value of this row (also when the last cells were skipped)
+                psi_shortest = dtw[i1*length + l2 - skip];
             }
         }
         #ifdef DTWDEBUG
@@ -999,7 +999,7 @@ seq_t dtw_distance_ndim_euclidean(seq_t *s1, idx_t l1,
     // Deal with psi-relaxation in the last row
     if (settings->psi_1e != 0 || settings->psi_2e != 0) {
         if (settings->psi_2e != 0) {
-            for (i=l2 - skip - settings->psi_2e; i<l2 - skip + 1; i++) { // iterate over vci
+            for (i=MAX(0, l2 - skip - settings->psi_2e); i<l2 - skip + 1; i++) { // iterate over vci
                 if (dtw[i1*length + i] < psi_shortest) {
                     psi_shortest = dtw[i1*length + i];
                 }
